@@ -64,6 +64,9 @@ func processedText(t *spec.TextVal, fmtFn func(t *spec.TextVal, lit string) (str
 func expandSteps(es []*spec.ListElem) []string {
 	var out []string
 	for _, e := range es {
+		if e.Name == "," {
+			continue // a stray comma, ignored by the grammar
+		}
 		n := 1
 		if e.Mult != "" {
 			v, err := strconv.ParseInt(e.Mult, 0, 64)
